@@ -28,7 +28,8 @@ func StartModel() *Model {
 	if path == "" {
 		path = "/verif/bin/driver"
 	}
-	cmd := exec.Command(path, "--serve")
+	// the extracted functions are not tail-recursive: run with an unlimited stack
+	cmd := exec.Command("/bin/sh", "-c", "ulimit -s unlimited 2>/dev/null; exec \"$0\" --serve", path)
 	in, _ := cmd.StdinPipe()
 	out, _ := cmd.StdoutPipe()
 	cmd.Stderr = os.Stderr
